@@ -1,11 +1,12 @@
-import Sigc.Lemmas.RefineMutual
+import Sigc.Lemmas.RefineTdF
 import Sigc.Lemmas.InvLive
 /-!
 # Refine work package — the driver's `teardown` is simulated (part A: the pieces)
 
 `teardown` = `delK*`, then `delC* ++ delS* ++ clear*` (all through `execOp`, i.e. without `collect`), then the
 forced destruction of every signal object (`dropHandle`, also of pinned / functor-owned ones), then `delT*`.
-The `execOp` parts are simulated by `OpS` (`all_sim`); the forced destruction by `R_dropHandle`, whose
+The `execOp` parts are simulated by `OpE` (`all_simE`, files `RefineTdC`–`RefineTdF`: the simulation that also tracks
+the specification's error flag); the forced destruction by `R_dropHandle`, whose
 hypothesis `Emit.Inv` survives the destruction of a pinned signal object because at that point no functor is
 left (`NoFn`: no slot variable, no cell).
 -/
@@ -63,24 +64,26 @@ theorem sSeq_append (f : Nat) (P : Prog) (t : Option Spec.LSt) (a b : List Op) :
 
 /-! ## the bundle carried through the teardown -/
 
-structure Bun (s : St) (t : Spec.LSt) : Prop where
+structure Bun (e : Option String) (s : St) (t : Spec.LSt) : Prop where
   inv : Emit.Inv s
   rel : R s t
+  err : t.err = e
   calm : Calm s
   td : Inv.TdInv s
 
 /-- one `execOp` of the teardown -/
-theorem op_step (f : Nat) (P : Prog) {s : St} {t : Spec.LSt} {op : Op} {r : St × Except Unit String}
-    (h : Bun s t) (hx : execOp f P s op = some r) :
-    ∃ t1 r1, Spec.execOp f P t op = some (t1, r1) ∧ Bun r.1 t1 := by
+theorem op_step (f : Nat) (P : Prog) {e : Option String} {s : St} {t : Spec.LSt} {op : Op}
+    {r : St × Except Unit String} (h : Bun e s t) (hx : execOp f P s op = some r) :
+    ∃ t1 r1, Spec.execOp f P t op = some (t1, r1) ∧ Bun e r.1 t1 := by
   obtain ⟨s1, res⟩ := r
-  obtain ⟨t1, r1, ht, hR1, _⟩ := (all_sim f).op P s t op s1 res h.inv h.rel h.calm.quiet hx f (Nat.le_refl _)
+  obtain ⟨t1, r1, ht, hR1, _⟩ :=
+    (all_simE f).op e P s t op s1 res h.inv ⟨h.rel, h.err⟩ h.calm.quiet hx f (Nat.le_refl _)
   have g1 := (Emit.all_ok f).op P s op s1 res h.inv hx
-  exact ⟨t1, r1, ht, g1.inv, hR1, h.calm.step g1.frame, h.td.execOp hx⟩
+  exact ⟨t1, r1, ht, g1.inv, hR1.r, hR1.err, h.calm.step g1.frame, h.td.execOp hx⟩
 
 /-- a sequence of `execOp`s of the teardown -/
-theorem seq_step (f : Nat) (P : Prog) : ∀ (ops : List Op) (s : St) (t : Spec.LSt) (s' : St), Bun s t →
-    Inv.tdSeq f P (some s) ops = some s' → ∃ t', sSeq f P (some t) ops = some t' ∧ Bun s' t' := by
+theorem seq_step (f : Nat) (P : Prog) {e : Option String} : ∀ (ops : List Op) (s : St) (t : Spec.LSt) (s' : St),
+    Bun e s t → Inv.tdSeq f P (some s) ops = some s' → ∃ t', sSeq f P (some t) ops = some t' ∧ Bun e s' t' := by
   intro ops
   induction ops with
   | nil =>
@@ -282,8 +285,8 @@ theorem good_forceDrop {s : St} (h : Emit.Inv s) (hn : NoFn s) (g : Nat) :
         noS_prims.gcImpl im hn2.1, fun i => (emp_prims i).gcImpl im (hn2.2 i)⟩
 
 /-- the forced destruction of all signal objects -/
-theorem force_sim : ∀ (gs : List Nat) (s : St) (t : Spec.LSt), Bun s t → NoFn s →
-    Bun (gs.foldl Inv.forceDelG s) (gs.foldl Spec.dropHandle t) ∧ NoFn (gs.foldl Inv.forceDelG s) := by
+theorem force_sim {e : Option String} : ∀ (gs : List Nat) (s : St) (t : Spec.LSt), Bun e s t → NoFn s →
+    Bun e (gs.foldl Inv.forceDelG s) (gs.foldl Spec.dropHandle t) ∧ NoFn (gs.foldl Inv.forceDelG s) := by
   intro gs
   induction gs with
   | nil => intro s t hb hn; exact ⟨hb, hn⟩
@@ -292,7 +295,7 @@ theorem force_sim : ∀ (gs : List Nat) (s : St) (t : Spec.LSt), Bun s t → NoF
     simp only [List.foldl_cons]
     obtain ⟨g1, hn1⟩ := good_forceDrop hb.inv hn g
     have hR1 := R_dropHandle hb.inv hb.rel g
-    exact ih _ _ ⟨g1.inv, hR1, hb.calm.step g1.frame, hb.td.forceDelG g⟩ hn1
+    exact ih _ _ ⟨g1.inv, hR1, (SErr.dropHandle_err t g).trans hb.err, hb.calm.step g1.frame, hb.td.forceDelG g⟩ hn1
 
 /-! ## the names walked over agree -/
 
